@@ -11,11 +11,111 @@ pub struct Src {
     pub text: String,
 }
 
+/// Signature of a function without its name: receiver, parameter names and types, return type (compact text).
+fn signature_text(sig: &syn::Signature) -> String {
+    let params: Vec<String> = sig.inputs.iter().map(|a| tsc(a)).collect();
+    format!("({})->{}", params.join(","), match &sig.output {
+        syn::ReturnType::Default => "()".to_string(),
+        syn::ReturnType::Type(_, t) => tsc(t),
+    })
+}
+
+/// Non-public functions and methods of a file: (owner, name, signature). Owner is the impl's self type or "".
+pub fn private_fns(file: &syn::File) -> Vec<(String, String, String)> {
+    let mut out = vec![];
+    for it in &file.items {
+        match it {
+            syn::Item::Fn(f) if !matches!(f.vis, syn::Visibility::Public(_)) => out.push((String::new(), f.sig.ident.to_string(), signature_text(&f.sig))),
+            syn::Item::Impl(i) if i.trait_.is_none() => {
+                for ii in &i.items {
+                    if let syn::ImplItem::Fn(f) = ii {
+                        if !matches!(f.vis, syn::Visibility::Public(_)) {
+                            out.push((self_ty_name(i), f.sig.ident.to_string(), signature_text(&f.sig)));
+                        }
+                    }
+                }
+            }
+            _ => {}
+        }
+    }
+    out
+}
+
+thread_local! {
+    /// (rel, new name -> reference name) for every file loaded in this run; used to undo renames in MIR facts too
+    pub static FN_RENAMES: std::cell::RefCell<std::collections::BTreeMap<String, std::collections::BTreeMap<String, String>>> = std::cell::RefCell::new(Default::default());
+}
+
+/// A private function that was merely renamed is given its reference name back (refdata/private_fns.json lists the
+/// private functions of the reviewed tree with their signatures): a reference name that no longer exists is matched
+/// with the one new private function of the same owner that has the identical signature. Rules are written against
+/// the reference names, so a rename is not a finding.
+fn undo_private_renames(rel: &str, file: &mut syn::File) {
+    let Some(verif) = std::env::var_os("VERIF_DIR") else { return };
+    let p = std::path::Path::new(&verif).join("refdata/private_fns.json");
+    let Ok(txt) = std::fs::read_to_string(p) else { return };
+    let Ok(v) = serde_json::from_str::<serde_json::Value>(&txt) else { return };
+    let Some(refs) = v.get(rel).and_then(|x| x.as_array()) else { return };
+    let reference: Vec<(String, String, String)> = refs.iter().filter_map(|r| Some((r.get(0)?.as_str()?.to_string(), r.get(1)?.as_str()?.to_string(), r.get(2)?.as_str()?.to_string()))).collect();
+    let current = private_fns(file);
+    let cur_names: std::collections::BTreeSet<(String, String)> = current.iter().map(|c| (c.0.clone(), c.1.clone())).collect();
+    let ref_names: std::collections::BTreeSet<(String, String)> = reference.iter().map(|c| (c.0.clone(), c.1.clone())).collect();
+    let mut map: std::collections::BTreeMap<String, String> = Default::default();
+    for (owner, name, sig) in &reference {
+        if cur_names.contains(&(owner.clone(), name.clone())) {
+            continue;
+        }
+        // candidates: new private functions of the same owner with the same signature
+        let cands: Vec<&(String, String, String)> = current.iter().filter(|c| c.0 == *owner && c.2 == *sig && !ref_names.contains(&(c.0.clone(), c.1.clone()))).collect();
+        // and no other missing reference function competes for it
+        let competitors = reference.iter().filter(|r| r.0 == *owner && r.2 == *sig && !cur_names.contains(&(r.0.clone(), r.1.clone()))).count();
+        if cands.len() == 1 && competitors == 1 {
+            map.insert(cands[0].1.clone(), name.clone());
+        }
+    }
+    if map.is_empty() {
+        return;
+    }
+    struct R<'a>(&'a std::collections::BTreeMap<String, String>);
+    fn rename_stream(ts: proc_macro2::TokenStream, m: &std::collections::BTreeMap<String, String>) -> proc_macro2::TokenStream {
+        ts.into_iter()
+            .map(|tt| match tt {
+                proc_macro2::TokenTree::Ident(i) => match m.get(&i.to_string()) {
+                    Some(n) => proc_macro2::TokenTree::Ident(proc_macro2::Ident::new(n, i.span())),
+                    None => proc_macro2::TokenTree::Ident(i),
+                },
+                proc_macro2::TokenTree::Group(g) => {
+                    let mut ng = proc_macro2::Group::new(g.delimiter(), rename_stream(g.stream(), m));
+                    ng.set_span(g.span());
+                    proc_macro2::TokenTree::Group(ng)
+                }
+                other => other,
+            })
+            .collect()
+    }
+    impl<'a> syn::visit_mut::VisitMut for R<'a> {
+        fn visit_ident_mut(&mut self, i: &mut proc_macro2::Ident) {
+            if let Some(n) = self.0.get(&i.to_string()) {
+                *i = proc_macro2::Ident::new(n, i.span());
+            }
+        }
+        fn visit_macro_mut(&mut self, m: &mut syn::Macro) {
+            m.tokens = rename_stream(std::mem::take(&mut m.tokens), self.0);
+            syn::visit_mut::visit_macro_mut(self, m);
+        }
+    }
+    syn::visit_mut::VisitMut::visit_file_mut(&mut R(&map), file);
+    FN_RENAMES.with(|r| {
+        r.borrow_mut().insert(rel.to_string(), map);
+    });
+}
+
 pub fn load(repo: &Path, rel: &str) -> Result<Src, String> {
     let p = repo.join(rel);
     let text = std::fs::read_to_string(&p).map_err(|e| format!("{}: {}", p.display(), e))?;
     let mut file = syn::parse_file(&text).map_err(|e| format!("{}: parse error: {}", rel, e))?;
     strip_tests(&mut file.items);
+    undo_private_renames(rel, &mut file);
     if std::env::var("VERIF_NO_NORMALIZE").is_err() {
         crate::normalize::normalize_file(&mut file);
     }
@@ -780,6 +880,113 @@ fn match_at(hay: &[String], at: usize, needle: &[String]) -> bool {
     true
 }
 
+/// Is the identifier token at `j` at a binding position (`let x`, `let mut x`, `for x in`, `|x|`, `ref x`,
+/// `Some(x) =>`, tuple patterns after `let` / `for` / `|`)?
+fn binding_position(toks: &[String], j: usize) -> bool {
+    if j == 0 {
+        return false;
+    }
+    let prev = toks[j - 1].as_str();
+    if matches!(prev, "let" | "mut" | "for" | "|" | "ref") {
+        return true;
+    }
+    if prev == "&" && j >= 2 && matches!(toks[j - 2].as_str(), "|" | "(" | ",") {
+        // |&x| / (&x, ..) in a pattern: judged by what precedes the `&`
+        return binding_position_after(toks, j - 1);
+    }
+    if prev == "(" || prev == "," {
+        return binding_position_after(toks, j);
+    }
+    false
+}
+
+fn binding_position_after(toks: &[String], j: usize) -> bool {
+    // walk back to the opening parenthesis of the enclosing tuple / constructor pattern
+    let mut depth = 0i32;
+    let mut k = j;
+    while k > 0 {
+        k -= 1;
+        match toks[k].as_str() {
+            ")" | "]" | "}" => depth += 1,
+            "(" | "[" | "{" => {
+                if depth == 0 {
+                    let before = if k > 0 { toks[k - 1].as_str() } else { "" };
+                    if matches!(before, "let" | "mut" | "for" | "|" | "Some" | "Ok" | "Err") {
+                        // a constructor pattern binds only when it is a pattern: followed (after its `)`) by `=>`, `=` or `in` / `|`
+                        return true;
+                    }
+                    if before == "(" || before == "," {
+                        return binding_position_after(toks, k);
+                    }
+                    return false;
+                }
+                depth -= 1;
+            }
+            ";" => return false,
+            _ => {}
+        }
+    }
+    false
+}
+
+fn ident_like(s: &str) -> bool {
+    let f = s.chars().next().unwrap_or(' ');
+    (f.is_ascii_lowercase() || f == '_') && s.chars().all(|c| c.is_alphanumeric() || c == '_') && !KEEP_IDENTS.contains(&s) && s != "_"
+}
+
+/// Alpha-equivalent match of a compact (unspaced) fragment against the token stream starting at token `at`:
+/// identifiers that are BOUND inside the matched window (their first occurrence there is a binding position) may be
+/// renamed consistently and bijectively; every other token must match literally. Returns the number of tokens matched.
+fn alpha_match_at(hay: &[String], at: usize, frag: &str) -> Option<usize> {
+    fn go<'a>(hay: &'a [String], at: usize, j: usize, frag: &str, p: usize, fwd: &mut Vec<(String, String)>) -> Option<usize> {
+        if p == frag.len() {
+            return Some(j - at);
+        }
+        let tok = hay.get(j)?;
+        let rest = &frag[p..];
+        // a local may be renamed only if its binder (`let`, `for`, `|`, a pattern constructor) lies inside the matched
+        // window, i.e. was itself matched literally against the fragment
+        let renamable_here = renamable(hay, j) && (fwd.iter().any(|(_, h)| h == tok) || (j > at && binding_position(hay, j)));
+        if renamable_here {
+            // the name this local has in the fragment: already fixed, or any identifier prefix of the rest
+            if let Some((n, _)) = fwd.iter().find(|(_, h)| h == tok).cloned() {
+                if rest.starts_with(n.as_str()) {
+                    // the fragment identifier must end here (next char is not an identifier char, or the next token is a word)
+                    return go(hay, at, j + 1, frag, p + n.len(), fwd);
+                }
+                return None;
+            }
+            let run: usize = rest.chars().take_while(|c| c.is_alphanumeric() || *c == '_').map(|c| c.len_utf8()).sum();
+            for len in (1..=run).rev() {
+                if !rest.is_char_boundary(len) {
+                    continue;
+                }
+                let name = &rest[..len];
+                if !ident_like(name) || fwd.iter().any(|(n, _)| n == name) {
+                    continue;
+                }
+                fwd.push((name.to_string(), tok.clone()));
+                if let Some(r) = go(hay, at, j + 1, frag, p + len, fwd) {
+                    return Some(r);
+                }
+                fwd.pop();
+            }
+            return None;
+        }
+        // a free identifier that the fragment renamed is not allowed: literal match only
+        if fwd.iter().any(|(n, h)| rest.starts_with(n.as_str()) && h != tok && ident_like(tok) && tok == n) {
+            return None;
+        }
+        if rest.starts_with(tok.as_str()) {
+            go(hay, at, j + 1, frag, p + tok.len(), fwd)
+        } else {
+            None
+        }
+    }
+    let mut fwd = vec![];
+    go(hay, at, at, frag, 0, &mut fwd)
+}
+
 /// Lex a fragment (prefix `§`, tokens separated by blanks where needed) into the token alphabet of
 /// `flat_tokens`: identifiers/numbers, string and char literals (kept whole), single punctuation characters.
 fn frag_tokens(frag: &str) -> Vec<String> {
@@ -862,11 +1069,14 @@ impl Compact {
             let n = frag_tokens(frag);
             (0..self.toks.len()).find(|&i| match_at(&self.toks, i, &n))
         } else {
-            let p = self.text.find(frag)?;
-            Some(match self.offs.binary_search(&p) {
-                Ok(i) => i,
-                Err(i) => i.saturating_sub(1),
-            })
+            if let Some(p) = self.text.find(frag) {
+                return Some(match self.offs.binary_search(&p) {
+                    Ok(i) => i,
+                    Err(i) => i.saturating_sub(1),
+                });
+            }
+            // same code with locals (bound inside the fragment) renamed
+            (0..self.toks.len()).find(|&i| alpha_match_at(&self.toks, i, frag).is_some())
         }
     }
     pub fn contains(&self, frag: &str) -> bool {
@@ -885,7 +1095,7 @@ impl Compact {
         if Self::token_mode(frag) {
             match_at(&self.toks, 0, &frag_tokens(frag))
         } else {
-            self.text.starts_with(frag)
+            self.text.starts_with(frag) || alpha_match_at(&self.toks, 0, frag).is_some()
         }
     }
     pub fn ends_with(&self, frag: &str) -> bool {
@@ -893,7 +1103,7 @@ impl Compact {
             let n = frag_tokens(frag);
             n.len() <= self.toks.len() && match_at(&self.toks, self.toks.len() - n.len(), &n)
         } else {
-            self.text.ends_with(frag)
+            self.text.ends_with(frag) || (0..self.toks.len()).any(|i| alpha_match_at(&self.toks, i, frag) == Some(self.toks.len() - i))
         }
     }
     pub fn is(&self, frag: &str) -> bool {
@@ -901,7 +1111,7 @@ impl Compact {
             let n = frag_tokens(frag);
             n.len() == self.toks.len() && match_at(&self.toks, 0, &n)
         } else {
-            self.text == frag
+            self.text == frag || alpha_match_at(&self.toks, 0, frag) == Some(self.toks.len())
         }
     }
 }
